@@ -302,14 +302,16 @@ enum Kind { DOG CAT }`})
 		}{
 			{"ReplaceRule(every rule, itself)", func() {
 				for _, r := range c18Standard {
-					validator.ReplaceRule(r.Name, r.RuleFunc)
+					if !replaceRuleBounded(r.Name, r.RuleFunc) {
+						break
+					}
 				}
 			}},
-			{"ReplaceRule(KnownTypeNames, itself)", func() { validator.ReplaceRule("KnownTypeNames", rules.KnownTypeNamesRule.RuleFunc) }},
+			{"ReplaceRule(KnownTypeNames, itself)", func() { replaceRuleBounded("KnownTypeNames", rules.KnownTypeNamesRule.RuleFunc) }},
 			{"ReplaceRule(FieldsOnCorrectType, without suggestions)", func() {
-				validator.ReplaceRule("FieldsOnCorrectType", rules.FieldsOnCorrectTypeRuleWithoutSuggestions.RuleFunc)
+				replaceRuleBounded("FieldsOnCorrectType", rules.FieldsOnCorrectTypeRuleWithoutSuggestions.RuleFunc)
 			}},
-			{"ReplaceRule(unregistered name)", func() { validator.ReplaceRule("NoSuchRule", rules.ScalarLeafsRule.RuleFunc) }},
+			{"ReplaceRule(unregistered name)", func() { replaceRuleBounded("NoSuchRule", rules.ScalarLeafsRule.RuleFunc) }},
 			{"RemoveRule + AddRule(ScalarLeafs)", func() {
 				validator.RemoveRule("ScalarLeafs")
 				validator.AddRule("ScalarLeafs", rules.ScalarLeafsRule.RuleFunc)
